@@ -274,7 +274,7 @@ def driver_def(name, env):
 def has_letter(name, env, letters, seen=None):
     d = env[name]
     for f in d["fields"]:
-        if f.get("t") in letters and f["k"] != "leb":
+        if f.get("t") is not None and f["t"] in letters and f["k"] != "leb":
             return True
         if "ty" in f and has_letter(f["ty"], env, letters):
             return True
